@@ -85,6 +85,14 @@ inductive MemFn where
   | memoryMcopy
   | memoryReturn
   | memoryRevert
+  | memoryExtCodeCopy
+  | memoryCreate
+  | memoryCreate2
+  | memoryCall
+  | memoryDelegateCall
+  | memoryStaticCall
+  | memoryLog
+  | memoryAuthCall
   -- END-MEM
   | other (name : String)
   deriving DecidableEq, Repr
